@@ -82,7 +82,7 @@ class FCISolverPySCF(ElectronicStructureSolver):
         else:
             self.cas = False
             if self.spin == 0:
-                self.cisolver = fci.direct_spin0.FCI(molecule.mean_field.mol)
+                self.cisolver = fci.direct_spin1.FCI(molecule.mean_field.mol)
             else:
                 self.cisolver = fci.direct_spin1.FCI()
 
